@@ -473,7 +473,8 @@ def alignBorder (b : Bytes) : Bytes :=
 /-- `GetPartitions`: the advertised partition keys (engine borders aligned to raw keys). -/
 def doPartitions (c : Cfg) (key stop : Bytes) : List Bytes :=
   let ps := partitions c.splits (encode key 0) (encode stop 0)
-  let ps := if c.shuffle then ps.reverse else ps
+  -- the engine may hand its partitions over in any order (`shuffle`): they are advertised in key order
+  let ps := sortParts (if c.shuffle then ps.reverse else ps)
   (ps.mapIdx (fun i p => if i == 0 then p.1 else alignBorder p.1)) ++ (ps.getLast?.map (·.2)).toList
 
 /-- `ListByStream(startKey, endKey, rev)` on internal keys: data batches (header revision, kvs)
